@@ -25,8 +25,10 @@ fn err2(code: u16) -> ctap2::Error {
         0x2E => NoCredentials,
         0x31 => PinInvalid,
         0x36 => PinRequired,
+        0x33 => PinAuthInvalid,
         0x7F => Other,
-        _ => InvalidParameter,
+        // scripts only use the codes above; anything else is a broken vector, made visible
+        _ => panic!("mock: status code {:#x} is not in the script table", code),
     }
 }
 
